@@ -295,7 +295,10 @@ fn solo(s: &Scenario) -> (Vec<Vec<String>>, BTreeMap<String, Vec<u8>>, String) {
         }
     }
     // after the last reader has finished: one more serialisation of the store (nothing may linger)
+    let c0 = world.fs.inner.borrow().creates;
     let post = run_rop(&world.store, &ROp::StoreJson);
+    let written = world.fs.inner.borrow().creates - c0;
+    let post = format!("{}\n#files written by this serialisation: {}", post, written);
     (results, world.fs.snapshot(), post)
 }
 
@@ -372,9 +375,12 @@ fn scenario_body(s: &Scenario, solo_results: &Vec<Vec<String>>, solo_files: &BTr
     EXECUTIONS.with(|e| *e.borrow_mut() += 1);
     // quiescence: all readers are done, so the store must answer exactly as it does after the same
     // calls made one after the other (a mode left flipped, a flag left set would show here)
+    let c0 = fs.inner.borrow().creates;
     let post = run_rop(&store, &ROp::StoreJson);
-    if post != solo_post {
-        panic!("C20DIVERGENCE|after_quiescence|store serialisation after all readers finished: solo {:?} concurrent {:?}", short(solo_post), short(&post));
+    let written = fs.inner.borrow().creates - c0;
+    let (solo_json, solo_written) = solo_post.rsplit_once("\n#files written by this serialisation: ").unwrap_or((solo_post, "0"));
+    if post != solo_json {
+        panic!("C20DIVERGENCE|after_quiescence|store serialisation after all readers finished: solo {:?} concurrent {:?}", short(solo_json), short(&post));
     }
     let got = results.lock().unwrap().clone();
     for (t, ops) in s.threads.iter().enumerate() {
@@ -408,6 +414,11 @@ fn scenario_body(s: &Scenario, solo_results: &Vec<Vec<String>>, solo_files: &BTr
             what = "extra file written".to_string();
         }
         panic!("C20DIVERGENCE|{}|{}", class, what);
+    }
+    // nothing visible went wrong in this execution: then no flag may be left set either (a changed flag
+    // left set shows as a stand-off file that the next serialisation writes again although nothing changed)
+    if written.to_string() != solo_written {
+        panic!("C20DIVERGENCE|after_quiescence_writes|the store serialisation after all readers finished wrote {} files, after the same calls made sequentially it writes {}", written, solo_written);
     }
 }
 
